@@ -286,6 +286,73 @@ func c14Eval(sh c14Shape, g uint64) (fails [][4]interface{}, dag bool, queries i
 	return
 }
 
+// c14Long: deep networks. A chain sensor -> h1 -> ... -> hN -> output with a direct sensor -> output link and, at every
+// third hidden node, a dead-end side neuron (no skip links: the library enumerates paths, their number must stay linear); the node list in signal order or reversed.
+// The longest path ending in the output has N+1 links whatever the extras.
+func c14Long(n int, reversed bool) (*network.Network, []*network.NNode) {
+	in, out := network.NewNNode(1, network.InputNeuron), network.NewNNode(2, network.OutputNeuron)
+	h := make([]*network.NNode, n)
+	all := []*network.NNode{in, out}
+	for i := range h {
+		h[i] = network.NewNNode(3+i, network.HiddenNeuron)
+	}
+	out.ConnectFrom(in, 0.5)
+	prev := in
+	for i := range h {
+		h[i].ConnectFrom(prev, 1)
+		prev = h[i]
+	}
+	out.ConnectFrom(prev, 1)
+	id := 3 + n
+	for i := 0; i < n; i += 3 {
+		side := network.NewNNode(id, network.HiddenNeuron)
+		id++
+		side.ConnectFrom(h[i], 1)
+		all = append(all, side)
+	}
+	if reversed {
+		for i := n - 1; i >= 0; i-- {
+			all = append(all, h[i])
+		}
+	} else {
+		all = append(all, h...)
+	}
+	return network.NewNetwork([]*network.NNode{in}, []*network.NNode{out}, all, 0), all
+}
+
+// c14LongEval: uncapped depth, the caps around the depth on a fresh network and as second queries, no marks left.
+func c14LongEval(n int, reversed bool) (fails []string, queries int64) {
+	want := n + 1
+	net, all := c14Long(n, reversed)
+	if r := c14Query(net, 0); r != (c14Result{depth: want}) {
+		fails = append(fails, fmt.Sprintf("uncapped depth (%d, capErr=%v %s), the longest path ending in the output has %d links", r.depth, r.capErr, r.other, want))
+		return fails, 1
+	}
+	queries++
+	if d, err := net.MaxActivationDepth(); err != nil || d != want {
+		fails = append(fails, fmt.Sprintf("MaxActivationDepth() = (%d, %v), want %d", d, err, want))
+	}
+	for _, c1 := range []int{1, n / 2, n, n + 1, n + 2, 2*n + 5} {
+		for _, c2 := range []int{0, n, n + 1, n + 2} {
+			net, all = c14Long(n, reversed)
+			if r, e := c14Query(net, c1), c14Expect(want, c1); r != e {
+				fails = append(fails, fmt.Sprintf("cap %d on a fresh network gave (%d, capErr=%v %s), want (%d, capErr=%v)", c1, r.depth, r.capErr, r.other, e.depth, e.capErr))
+				return fails, queries
+			}
+			if r, e := c14Query(net, c2), c14Expect(want, c2); r != e {
+				fails = append(fails, fmt.Sprintf("query with cap %d after a query with cap %d gave (%d, capErr=%v %s), a fresh network gives (%d, capErr=%v)", c2, c1, r.depth, r.capErr, r.other, e.depth, e.capErr))
+				return fails, queries
+			}
+			queries += 2
+			if id := c14Marked(all); id != 0 {
+				fails = append(fails, fmt.Sprintf("node %d still marked after queries with caps %d,%d", id, c1, c2))
+				return fails, queries
+			}
+		}
+	}
+	return fails, queries
+}
+
 func runC14(c *Ctx) {
 	debug.SetMaxStack(64 << 20)
 	shapes := []c14Shape{{2, 1}, {1, 2}}
@@ -363,6 +430,23 @@ func runC14(c *Ctx) {
 			c.Distinct(uint64(shapeIdx(j.sh))<<48 | g)
 		}
 	})
+	// deep networks: every chain length up to the bound
+	maxLong := 120
+	if !c.Quick() {
+		maxLong = 600
+	}
+	parFor(maxLong, func(i int) {
+		n := i + 1
+		for _, rev := range []bool{false, true} {
+			fails, q := c14LongEval(n, rev)
+			c.AddEval(q)
+			for _, f := range fails {
+				c.ViolateOrd("C14/deep-chain", int64(1)<<40|int64(n), fmt.Sprintf("%s on the chain network of %d hidden nodes (node list reversed: %v)", f, n, rev),
+					&Replay{Scenario: "long", Params: map[string]interface{}{"n": n, "reversed": rev}})
+			}
+		}
+	})
+	c.Rule += fmt.Sprintf("; DEEP NETWORKS: for every N = 1..%d the chain sensor -> h1 -> ... -> hN -> output with a direct sensor->output link and dead-end side neurons, node list in signal and in reverse order: uncapped depth N+1, caps {1, N/2, N, N+1, N+2, 2N+5} on a fresh network each followed by caps {0, N, N+1, N+2}, no mark left", maxLong)
 	c.Extra["graphs_enumerated"] = c.States
 	c.Extra["distinct_note"] = "distinct_nontrivial counts every 64th graph code (graphs are distinct by construction; graphs_enumerated is the full count)"
 	c.States = 0
@@ -372,6 +456,13 @@ func runC14(c *Ctx) {
 
 func replayC14(c *Ctx, rp *Replay) (bool, string) {
 	debug.SetMaxStack(64 << 20)
+	if rp.Scenario == "long" {
+		rev, _ := rp.Params["reversed"].(bool)
+		if fails, _ := c14LongEval(paramInt(rp, "n"), rev); len(fails) > 0 {
+			return true, fails[0]
+		}
+		return false, fmt.Sprintf("chain of %d", paramInt(rp, "n"))
+	}
 	sh := c14Shape{paramInt(rp, "hidden"), paramInt(rp, "outputs")}
 	var g uint64
 	switch v := rp.Params["graph"].(type) {
